@@ -919,6 +919,34 @@ def r16_order_and_registration(idx, r):
               msg="a path registers the field without marking its value as taken: the next auto() hands the same bit out again and two flags share it")
 
 
+def r18_every_field_every_value(idx, r):
+    """(a) every parameter of a function of the database package is read by it (interface hooks with a fixed signature excepted): an
+    alternate constructor such as JaggedArray.fromH5(data, offsets, shapes, nones, dtype, paramName) that stops using one of them leaves the
+    object with the placeholder of the empty constructor - the buffer is then viewed with the wrong dtype.  (b) the reader assigns what was
+    stored, None included: rule R04.5 (link string when one was stored, else the value) is decided here too."""
+    from .c04 import r5_linked_dims
+    n = 0
+    for f in idx.all_funcs():
+        if not f.module.name.startswith("armi.bookkeeping.db") or ".tests" in f.module.name:
+            continue
+        a = f.node.args
+        ps = [x.arg for x in a.posonlyargs + a.args + a.kwonlyargs if x.arg not in ("self", "cls")]
+        body = [x for x in f.node.body if not (isinstance(x, ast.Expr) and isinstance(x.value, ast.Constant))]
+        if not ps or (len(body) <= 1 and (not body or isinstance(body[0], (ast.Raise, ast.Pass, ast.Return)))):
+            continue
+        if f.name.startswith("interact"):
+            continue  # hook signature fixed by armi.interfaces.Interface
+        read = {x.id for x in walk_local(f.node) if isinstance(x, ast.Name) and isinstance(x.ctx, ast.Load)}
+        n += 1
+        for p_ in ps:
+            if p_.startswith("_"):
+                continue
+            r.require(p_ in read, f"{f.qualname}:uses:{p_}", f, msg=f"{f.qualname} no longer reads its parameter `{p_}`: what the caller hands over (for a constructor: a field of the stored value) is dropped")
+    if n < 40:
+        raise AnchorMissing("functions of the database package")
+    r5_linked_dims(idx, r)
+
+
 def r17_pairing(idx, r):
     from ..pairing import pairing_rule
     pairing_rule(idx, r, ["armi.bookkeeping.db", "armi.utils.flags", "armi.reactor.flags", "armi.reactor.parameters"], 60)
@@ -965,3 +993,5 @@ def run(idx, chk):
                  necessary="every value and every flag name reads back on the object it was written for")
     chk.run_rule("R05.17", "arguments stand at the parameter they are named after; sibling calls forward the same pass-through parameters", lambda r: r17_pairing(idx, r), floor=1,
                  necessary="packing and unpacking receive the attributes and shapes that belong to the value")
+    chk.run_rule("R05.18", "every parameter of a database function is used; the reader assigns the stored value, None included (R04.5)", lambda r: r18_every_field_every_value(idx, r), floor=60,
+                 necessary="every value reads back with the kind and shape it was written with, None where None was written")
